@@ -15,4 +15,7 @@ def selCatches : List String := ["ImportError"]
 def selHandlerImports : List String := ["rle"]
 def selOtherStatements : Nat := 0
 def selUnboundInHandler : List String := []
+/-- everything in rle.py through which one call could influence a later one (`global` declarations,
+module-level mutable objects read by a function, memoising decorators, mutable defaults) -/
+def rleModuleState : List String := []
 end PsdVerif.Generated.Rle
